@@ -1042,7 +1042,7 @@ var spec = &hx.Spec[Case]{
 		"local:store-path:canonical", "local:store-path:non-canonical", "local:store-path:non-canonical:prune", "local:store-path:non-canonical:verify",
 		"local:store-path:trailing-slash", "local:store-path:double-slash", "local:store-path:dot", "local:store-path:dotdot",
 		"local:store-path:relative", "local:store-path:relative-dot", "local:store-path:relative-trailing-slash",
-		"local:store-path:symlink", "local:store-path:symlink-trailing-slash", "local:store-path:symlink-in-path",
+		"local:store-path:symlink", "local:store-path:symlink-trailing-slash", "local:store-path:symlink-in-path", "local:store-path:symlink-relative", "local:store-path:symlink-chain", "local:store-path:symlink-chain-relative", "local:store-path:symlink-chain-3",
 	},
 	Gen: genCase,
 	Run: run,
@@ -1451,7 +1451,7 @@ func TestEnumStorePath(t *testing.T) {
 			}
 		}
 	}
-	hx.Exhaustive("store path spellings (canonical, trailing slash, //, /./, dir/../dir, relative plain/./trailing slash, symlink, symlink/, symlink in the path) x mode x prune/verify-repair, library and command")
+	hx.Exhaustive("store path spellings (canonical, trailing slash, //, /./, dir/../dir, relative plain/./trailing slash, symlink, symlink/, symlink in the path, relative symlink, chains of 2 and 3 symlinks with absolute and relative targets) x mode x prune/verify-repair, library and command")
 }
 
 func TestProp(t *testing.T) { hx.Prop(t, spec) }
